@@ -34,6 +34,63 @@ pub fn profile(name: &str) -> Option<Profile> {
             },
             ..base
         },
+        "c02" => Profile {
+            name: "c02",
+            oracles: Oracles { c02: true, ..Default::default() },
+            gen_cfg: GenCfg {
+                w_entitlement: 45,
+                w_config: 12,
+                w_removal: 8,
+                w_keyroll: 8,
+                w_maintenance: 10,
+                max_cas: 6,
+                allow_delete: false,
+                ..GenCfg::default()
+            },
+            ..base
+        },
+        "c03" => Profile {
+            name: "c03",
+            oracles: Oracles { c03: true, ..Default::default() },
+            gen_cfg: GenCfg {
+                w_entitlement: 18,
+                w_config: 30,
+                w_removal: 28,
+                w_keyroll: 12,
+                ..GenCfg::default()
+            },
+            ..base
+        },
+        "c04" => Profile {
+            name: "c04",
+            oracles: Oracles { c04: true, ..Default::default() },
+            gen_cfg: GenCfg {
+                w_entitlement: 16,
+                w_config: 28,
+                w_removal: 5,
+                w_keyroll: 34,
+                ..GenCfg::default()
+            },
+            ..base
+        },
+        "c14" => Profile {
+            name: "c14",
+            oracles: Oracles { c14: true, ..Default::default() },
+            gen_cfg: GenCfg {
+                w_entitlement: 6,
+                w_config: 30,
+                w_removal: 3,
+                w_keyroll: 12,
+                w_maintenance: 8,
+                w_clock: 40,
+                max_advance: 45 * 86400,
+                allow_delete: false,
+                allow_suspend: false,
+                ..GenCfg::default()
+            },
+            wide_timing: true,
+            ..base
+        },
         "all" => Profile {
             name: "all",
             oracles: Oracles::all(),
